@@ -153,6 +153,36 @@ func checks() map[string]*Check {
 	app("C07", RunSpec{Scen: "w2.takeover", Quick: 24, Thorough: 600}, RunSpec{Scen: "w2.figure8", Quick: 24, Thorough: 600}, RunSpec{Scen: "w2.acklose", Quick: 16, Thorough: 400})
 	app("C08", RunSpec{Scen: "w2.votes", Quick: 24, Thorough: 600})
 
+	add(&Check{ID: "C19", Level: "exploration", Props: []string{"C19"},
+		Runs: []RunSpec{
+			{Scen: "codec.wire", Params: "cases=400", Quick: 6, Thorough: 120},
+			{Scen: "codec.storage", Params: "cases=300", Quick: 6, Thorough: 120},
+			{Scen: "codec.e2e", Params: "size=0", Quick: 1, Thorough: 2},
+			{Scen: "codec.e2e", Params: "size=1", Quick: 1, Thorough: 2},
+			{Scen: "codec.e2e", Params: "size=32767", Quick: 1, Thorough: 2},
+			{Scen: "codec.e2e", Params: "size=32768", Quick: 1, Thorough: 2},
+			{Scen: "codec.e2e", Params: "size=32769", Quick: 1, Thorough: 2},
+			{Scen: "codec.e2e", Params: "size=102400", Quick: 1, Thorough: 2},
+			{Scen: "codec.e2e", Params: "size=4089446", Quick: 1, Thorough: 2},
+			{Scen: "codec.e2e", Params: "size=4718592", Quick: 1, Thorough: 2},
+			{Scen: "codec.e2e", Params: "size=9437184", Quick: 0, Thorough: 2},
+		},
+		NT:     func(r *Result) bool { return cnt(r, "codec.wire_cases")+cnt(r, "codec.storage_cases")+cnt(r, "codec.e2e_runs") > 0 },
+		Rule:   "wire: generated requests/replies (0, 1, 2^31, 2^63, max uint64, random; ids empty/ASCII/UTF-8/NUL; 0..40 entries of all three types; data nil/empty/1 B/64 KiB/1 MiB; snapshot chunks up to just under 4 MiB; an oversize request must fail, not change) sent between two real transports on loopback and compared field by field; storage: log append/reopen/read, SetState/State across a new instance, Encode/DecodeConfiguration, snapshot metadata+content; end to end: leader's state machine writes N bytes, an empty follower over the real transport must restore exactly those bytes. nil and empty byte slices are treated as equal (proto3), conversions are counted. Each run = one seed-determined batch; distinct = distinct batches",
+		Assume: []string{"loopback TCP on 127.0.0.1 is available", "nil vs empty byte slices are not distinguished (not representable in proto3)"}})
+
+	add(&Check{ID: "C20", Level: "exploration", Props: []string{"C20"},
+		Runs: []RunSpec{
+			{Scen: "race.api", Params: "snapshots=1,opcap=100000", Quick: 10, Thorough: 200, Race: true, Par: 8},
+			{Scen: "race.grpc", Params: "", Quick: 4, Thorough: 80, Race: true, Par: 8},
+			{Scen: "w1", Params: "snapshots=1,crash=1,reads=1,leasereads=1", Quick: 8, Thorough: 200, Race: true, Par: 8},
+			{Scen: "w2.votes", Params: "", Quick: 4, Thorough: 80, Race: true, Par: 8},
+			{Scen: "w2.bounce", Params: "", Quick: 4, Thorough: 80, Race: true, Par: 8},
+		},
+		NT:     func(r *Result) bool { return cnt(r, "race.runs") > 0 && (cnt(r, "msg.send") > 100 || r.Scen == "race.grpc") },
+		Rule:   "the harness is built with -race; runs are real-time clusters on the simulated network (deep-copying) and on the bundled gRPC transport, with many goroutines calling every public method (submissions of all types, Status, Configuration, AddServer/RemoveServer, Bootstrap on a running node, Stop/Restart on the same object, crash+restart) across leader changes, snapshots (slow state machine) and shutdowns. Race reports are read from the detector's log files; a report whose two accesses both lie in the library is a violation, de-duplicated by the pair of innermost library functions",
+		Assume: []string{"the race detector only reports races on interleavings that happened; a clean run is not race freedom", "reports with a harness-only stack on one side are harness errors and are listed separately"}})
+
 	storeAssume := []string{
 		"crash model: process death — every completed write(2) persists, in order; images are synthesised by replaying the strace-recorded syscalls (self-validated: the full replay must be byte-identical to the directory the workload left)",
 		"byte prefixes of a write: all when <= 128 bytes, else the first/last 8 and every 64th",
